@@ -162,7 +162,11 @@ class Shard:
                 self.logf.close()
                 tail = self.logtail(200000)
                 inf = self.inflight()
-                harness_sleep = "hz.(*World).hook" in tail
+                # a goroutine parked in one of the harness's own virtual sleeps (schedule-point delay,
+                # simulated write stall) while others wait for a mutex freezes virtual time: that is an
+                # artefact of the bubble, not evidence about corebgp
+                harness_sleep = "hz.(*World).hook" in tail or any(
+                    ("[sleep" in blk.split("\n", 1)[0] and "memnet.(*Conn).Write" in blk) for blk in tail.split("\n\n"))
                 for r in inf:
                     verdict = "inconclusive" if harness_sleep else "violated"
                     why = ("no progress for %d s of wall-clock time; goroutine dump shows a goroutine inside a harness "
